@@ -44,6 +44,16 @@ def _H2():
     return H
 
 
+def _SC():
+    return xgi.SimplicialComplex([[0, 1, 2], [2, 3], [3, 4, 5], [5, 0], [6, 7]])
+
+
+def _H3():
+    H = xgi.random_hypergraph(12, [0.25, 0.05], seed=11)
+    H.cleanup()
+    return H
+
+
 RECIPES = {
     "fast_random_hypergraph": lambda s: xgi.fast_random_hypergraph(8, [0.3, 0.2], seed=s),
     "random_hypergraph": lambda s: xgi.random_hypergraph(7, [0.3, 0.2], seed=s),
@@ -52,6 +62,18 @@ RECIPES = {
                                                        {i: i % 2 for i in range(6)}, {i: i % 2 for i in range(4)},
                                                        np.array([[5, 1], [1, 5]]), seed=s),
     "watts_strogatz_hypergraph": lambda s: xgi.watts_strogatz_hypergraph(8, 3, 2, 1, 0.5, seed=s),
+    # tiny wiring probabilities (skip lengths far beyond the usual range) on large index spaces
+    "uniform_erdos_renyi_hypergraph#tiny_p": lambda s: xgi.uniform_erdos_renyi_hypergraph(3000, 3, 4e-9, seed=s),
+    "fast_random_hypergraph#tiny_p": lambda s: xgi.fast_random_hypergraph(2500, [5e-9], order=[2], seed=s),
+    # simplicial complexes as input of the layouts
+    "barycenter_spring_layout#SC": lambda s: xgi.barycenter_spring_layout(_SC(), seed=s),
+    "weighted_barycenter_spring_layout#SC": lambda s: xgi.weighted_barycenter_spring_layout(_SC(), seed=s),
+    "pairwise_spring_layout#SC": lambda s: xgi.pairwise_spring_layout(_SC(), seed=s),
+    "bipartite_spring_layout#SC": lambda s: xgi.bipartite_spring_layout(_SC(), seed=s),
+    "random_layout#SC": lambda s: xgi.random_layout(_SC(), seed=s),
+    # many clusters on a small, poorly separable hypergraph (clusters run empty during k-means)
+    "spectral_clustering#k5": lambda s: xgi.spectral_clustering(_H3(), 5, seed=s),
+    "spectral_clustering#k4": lambda s: xgi.spectral_clustering(_H3(), 4, seed=s),
     # small dense ring: rewired edges often land on existing ones
     "watts_strogatz_hypergraph#dense": lambda s: xgi.watts_strogatz_hypergraph(6, 2, 4, 0, 0.9, seed=s),
     # degree sum not a multiple of m: the repair branch
